@@ -432,13 +432,16 @@ void mmd_export_header_itmz(DString * out, const char * source, token * t, scrat
 		while (walker) {
 			switch (walker->type) {
 				case TEXT_PLAIN:
-					if (walker->len) {
+					if ((walker->len == 0) ||
+							((walker->len == 1) && (walker->next == NULL) &&
+							 ((source[walker->start] == ' ') || (source[walker->start] == '\t')))) {
+						// Whitespace that a writer has trimmed away already, or the
+						// blank that ends a source without a final newline
+						walker = walker->prev;
+					} else {
 						// Text of the header
 						stop = walker->start + walker->len;
 						walker = NULL;
-					} else {
-						// Whitespace that a writer has trimmed away already
-						walker = walker->prev;
 					}
 
 					break;
